@@ -306,4 +306,22 @@ Proof.
     unfold brun_spec. cbn [fold_left]. apply IH; [exact Hf2|lia].
 Qed.
 
+(* ------------------------------------------------------------------ the sources at hand *)
+
+(* the per-field item loop of the sources the check runs on passes the item index j to RemoveData (regenerated flag
+   c_c07_jettison_removes_item_j): were the queue index i to come back, this lemma -- and with it the theorems about the
+   code at hand -- would no longer check *)
+Lemma code_jfix_true : code_jfix = true.
+Proof. reflexivity. Qed.
+
+Lemma code_step_total : forall (fuel : nat) (b : bserver) (ev : bevent),
+  2 <= fuel -> speak code_fixes b ev < fuel ->
+  bstep code_fixes code_jfix fuel b ev = Some (bstep_spec code_fixes b ev).
+Proof. intros fuel b ev. rewrite code_jfix_true. apply server_step_total. Qed.
+
+Lemma code_run_total : forall (fuel : nat) (evs : list bevent) (b : bserver),
+  2 <= fuel -> rpeak code_fixes evs b < fuel ->
+  brun code_fixes code_jfix fuel evs b = Some (brun_spec code_fixes evs b).
+Proof. intros fuel evs b. rewrite code_jfix_true. apply server_run_total. Qed.
+
 End Proofs.
